@@ -418,6 +418,9 @@ def run(ctx, progs):
         _c10.r1d_aligner_direction(ctx, P, D, R="C01.R12")
         from . import c17
         c17.r3_twins(ctx, P, R="C01.R13")
+        from . import c08
+        c08.r9_shrink_adopted(ctx, P, R="C01.R14")
+        c08.r10_in_place_map_gate(ctx, P, R="C01.R15")
     ctx.config = None
 
 
